@@ -1229,6 +1229,14 @@ def c06_lines(r, n):
     for acts in orders + [[fee1, fee1], [fee1, swap_action(), fee1], [swap_action(), fee2, swap_action()], [fee2, fee1, fee2]]:
         for rt in routes:
             lines.append("dispatchh %d %s %s" % (10 ** 6, hx("uusdc"), hx(memo(rt, acts))))
+    fwj = _json.dumps(int_fwd(U[1]))
+    for m in ['{"orbiter":{"pre_actions":[null],"forwarding":%s}}' % fwj, '{"orbiter":{"pre_actions":[{"id":"ACTION_FEE"}],"forwarding":%s}}' % fwj,
+              '{"orbiter":{"pre_actions":[{"id":"ACTION_FEE","attributes":null}],"forwarding":%s}}' % fwj, '{"orbiter":{"forwarding":{"protocol_id":"PROTOCOL_INTERNAL"}}}',
+              '{"orbiter":{"forwarding":null}}', '{"orbiter":null}', '{}',
+              '{"orbiter":{"forwarding":{"protocol_id":"PROTOCOL_CCTP","attributes":%s}}}' % _json.dumps(int_fwd(U[1])["attributes"]),
+              '{"orbiter":{"forwarding":{"protocol_id":"PROTOCOL_IBC","attributes":%s}}}' % _json.dumps(int_fwd(U[1])["attributes"]),
+              '{"orbiter":{"forwarding":{"protocol_id":9,"attributes":%s}}}' % _json.dumps(int_fwd(U[1])["attributes"])]:
+        lines.append("dispatchh %d %s %s" % (1000, hx("uusdc"), hx(m)))
     lines.append("dispatchh %d %s %s" % (10 ** 6, hx("uusdc"), hx("{\"orbiter\":{\"pre_actions\":[]}}")))
     lines.append("dispatchh %d %s %s" % (10 ** 6, hx("uusdc"), hx("{\"orbiter\":{\"pre_actions\":[{\"id\":7}],\"forwarding\":" + _json.dumps(int_fwd(U[1])) + "}}")))
     for _ in range(n):
